@@ -137,7 +137,7 @@ def gen_src(rng, w):
 
 
 def gen_flags(rng):
-    agg = rng.choice(["none"] * 5 + ["sum", "min", "max"] + (["bad"] if rng.random() < 0.3 else ["sum"]))
+    agg = rng.choice(["none"] * 5 + ["sum", "min", "max", "min", "max"] + (["bad"] if rng.random() < 0.3 else ["sum"]))
     return {"sumup": rng.random() < 0.3, "squeeze": rng.random() < 0.5, "agg": agg, "outok": rng.random() > 0.04,
             "field": rng.choice(["B", "H"])}
 
@@ -361,7 +361,10 @@ def obs_kind(x):
 def run_stream(ctx, n_cases):
     stats = {"cases": 0, "forms": {}, "results": {}, "coll_branches": {}, "observer_inputs": {}, "pixel_agg": {}, "out_shapes": 0,
              "disagreements": 0, "distinct_outputs": 0, "duplicate_sources_listed": 0, "numeric_list_of_arrays": 0,
-             "check_duplicates_rows": 0, "check_duplicates_warned": 0}
+             "check_duplicates_rows": 0, "check_duplicates_warned": 0,
+             # c03post: order-sensitive rows (see corr/level2_family.py): accepted calls with min / max whose world holds a rotated
+             # or left-handed sensor with >= 2 distinct pixels; worlds with a multi-step path shorter than the longest one
+             "nonlinear_agg_world_has_rotated_or_left_multipixel_sensor": 0, "ok_calls_world_has_short_multi_step_path": 0}
     cases = [gen_case(ctx.rng) for _ in range(n_cases)]
     ml = run_driver([model_line(c) for c in cases])
     seen, shapes, samples = set(), set(), []
@@ -385,6 +388,16 @@ def run_stream(ctx, n_cases):
             ids = [i["id"] for i in c["src"]["items"] if i["k"] == "O"]
             stats["duplicate_sources_listed"] += len(ids) != len(set(ids))
         stats["pixel_agg"][c["agg"]] = stats["pixel_agg"].get(c["agg"], 0) + 1
+        if "ok shape" in r and "world" in c:
+            objs = [o for o in c["world"]["objs"] if o["t"] in "SK"]
+            ks = [o for o in objs if o["t"] == "K"]
+            sens = any((o["left"] or any(q != ID for q in o["ori"])) and o["pixel"] is not None
+                       and len({tuple(v) for v in np.array(o["pixel"]).reshape(-1, 3).tolist()}) >= 2 for o in ks)
+            stats["nonlinear_agg_world_has_rotated_or_left_multipixel_sensor"] += c["agg"] in ("min", "max") and sens
+            M = max((len(o["pos"]) for o in objs), default=1)
+            stats["ok_calls_world_has_short_multi_step_path"] += any(
+                2 <= len(o["pos"]) < M and any((o["pos"][m % len(o["pos"])], o["ori"][m % len(o["pos"])]) != (o["pos"][-1], o["ori"][-1])
+                                               for m in range(len(o["pos"]), M)) for o in objs)
         if "ok shape" in r:
             shapes.add(r.split("|")[0])
         seen.add(r)
